@@ -3,6 +3,9 @@ pub mod conv;
 pub mod core;
 pub mod pref;
 pub mod prng;
+pub mod irb;
+pub mod irx;
+pub mod typing;
 
 pub mod c01;
 pub mod c02;
